@@ -77,6 +77,19 @@ pub struct Tracker {
     /// smallest input/output_frames_max seen so far (a buffer allocated then must still suffice)
     pub min_in_max: usize,
     pub min_out_max: usize,
+    /// channels that have been active in an accepted processing call since construction / the
+    /// last reset (bit c = channel c): their sample storage holds audio. Part of the search key:
+    /// what `reset()` or a rejected
+    /// call leaves behind may depend on which channels hold audio and which did not take part
+    /// in the last call, and a history that reaches the same control state with clean storage
+    /// must not stand in for one that reaches it with audio in it.
+    pub dirty: u32,
+    /// the mask of the most recent processing call, accepted or rejected (all ones without a
+    /// mask). The implementations keep a copy of it; on correct code that copy never influences
+    /// anything that follows, so it is not part of the control fingerprint - which is exactly
+    /// why it has to be part of the search key: a `reset()` or a later call that
+    /// wrongly consults the stale copy is only seen from a state that was reached by a masked call.
+    pub last_mask: u32,
 }
 
 impl Tracker {
@@ -106,6 +119,8 @@ impl Tracker {
             tot_out: 0,
             min_in_max: usize::MAX,
             min_out_max: usize::MAX,
+            dirty: 0,
+            last_mask: u32::MAX,
         }
     }
 }
@@ -203,6 +218,16 @@ impl<T: Flt> Tracked<T> {
         self.trk.min_in_max = self.trk.min_in_max.min(obs.before.in_max).min(obs.after.in_max);
         self.trk.min_out_max = self.trk.min_out_max.min(obs.before.out_max).min(obs.after.out_max);
         // ---- tracker update (documented semantics)
+        if op.is_processing() || matches!(op, Op::Bad(_)) {
+            self.trk.last_mask = match op {
+                Op::PM(m, _) | Op::PPM(m, _, _) => m,
+                Op::Bad(crate::ops::Bad::MaskedInShort(m, _)) | Op::Bad(crate::ops::Bad::MaskedOutShort(m, _)) => m,
+                _ => u32::MAX,
+            };
+        }
+        if op == Op::Z {
+            self.trk.last_mask = u32::MAX;
+        }
         match (op, &obs.res) {
             (Op::R(x, ramp), Res::Unit) => {
                 let nv = cfg.ratio * x;
@@ -226,8 +251,14 @@ impl<T: Flt> Tracked<T> {
                 self.trk.calls = 0;
                 self.trk.seen_valid = false;
                 self.trk.chunk = cfg.chunk;
+                self.trk.dirty = 0;
             }
             (_, Res::Ok(i, o)) if op.is_processing() => {
+                for (c, a) in obs.active.iter().enumerate() {
+                    if *a {
+                        self.trk.dirty |= 1 << c;
+                    }
+                }
                 self.trk.prev_pair = Some((self.trk.r_cur, self.trk.r_tgt));
                 self.trk.r_cur = self.trk.r_tgt;
                 self.trk.calls += 1;
